@@ -1,11 +1,12 @@
 TITLE = "Bulk edits touch every distinct child exactly once and rescale proportionally"
 IMPORTS = ["From Coq Require Import ZArith QArith List Bool.",
-           "From MV Require Import Base.Res Model.Numbers Model.IdTree Proofs.IdTreeP.",
+           "From MV Require Import Base.Res Model.Numbers Model.IdTree Proofs.IdTreeP Proofs.ServedOnce.",
            "Import ListNotations.", "Open Scope Z_scope."]
 ENTRIES = [
  ("C16_set_exactly_once", "set_once", "setting a parameter through a container applies the value or function exactly once to the ORIGINAL value of every distinct leaf below it, however often and wherever that leaf object is referenced; nothing else is touched"),
  ("C16_traversal_any_edit", "apply_once_spec", "the same for any per-leaf edit (mutate_parameter)"),
  ("C16_without_sharing", "set_once_nodup", ""),
+ ("C16_served_once_per_distinct_leaf", "served_once_per_distinct_leaf", "how often the function is called: a call counter per leaf object shows 1 on every distinct leaf and 0 elsewhere - whatever the leaves hold (one parameter object shared by several leaves is served once per leaf)"),
  ("C16_read_flat_per_position", "get_flat_nth", "reading a parameter returns one entry per leaf POSITION in order (flat)"),
  ("C16_read_flat_length", "get_flat_length", ""),
  ("C16_read_flat_filtered", "get_parameter_flat_in", ""),
